@@ -3,7 +3,7 @@
 // (reformatting preserves statements).
 //
 // It derives statements of the grammar accepted by internal/sqlparse as a
-// union of five families, each exhaustive inside its own stated bound:
+// union of six families, each exhaustive inside its own stated bound:
 //
 //	expr    every expression shape up to a nesting depth, built from ~85
 //	        operator/function forms, placed in a SELECT result column
@@ -13,6 +13,8 @@
 //	        CREATE/DROP VIEW and transaction control, same "at most K options"
 //	pos     every expression position of every statement kind x every
 //	        subquery-bearing expression form x the table the subquery reads
+//	cte     WITH clauses that reuse the name of a real table which another part
+//	        of the statement, outside that WITH's scope, reads or writes
 //	lex     literal, identifier, comment and keyword spellings
 //
 // Every statement carries, by construction, the list of tables it names and
@@ -46,7 +48,7 @@ type Use struct {
 type Stmt struct {
 	SQL     string   `json:"sql"`
 	Kind    string   `json:"kind"`   // select insert update delete createtable altertable createindex dropindex droptable createview dropview txn
-	Family  string   `json:"family"` // expr select dml ddl pos lex txn
+	Family  string   `json:"family"` // expr select dml ddl pos cte lex txn
 	Cell    string   `json:"cell"`   // class label for violation cells
 	Key     string   `json:"key"`    // unique within one enumeration
 	Simpler []string `json:"simpler,omitempty"`
@@ -100,6 +102,7 @@ func Enumerate(lv Level) []Stmt {
 	out = append(out, lexFamily()...)
 	out = append(out, txnFamily()...)
 	out = append(out, posFamily(lv)...)
+	out = append(out, cteFamily(lv)...)
 	out = append(out, structFamilies(lv.Options, lv.DDLOptions)...)
 	out = append(out, exprFamily(lv.ExprDepth)...)
 
